@@ -4,7 +4,7 @@ from pyvc import prims as U
 from pyvc.logic import (Rope, as_rope, is_sym, land, lor, lnot, implies, iff, eq, to_be, ite, seg)
 from pyvc.engine import Ref, HObj, HList
 from pyvc.verify import NS
-from .common import (N, HARD, repo, sym_prv_node, sym_pub_node, ser32, ser256, serP, field,
+from .common import (spec_prv_ckd_terms, spec_pub_ckd_terms, N, HARD, repo, sym_prv_node, sym_pub_node, ser32, ser256, serP, field,
                      fingerprint_of_point)
 
 CONTRACTS = []
@@ -60,15 +60,7 @@ class PrvCkd:
     def post(self, c, I, out):
         k, idx = I.n.k, I.index
         in_range = land(idx >= 0, idx < 2 ** 32)
-        hardened = idx >= HARD
-        # BIP32: data layout by hardened / normal
-        data_h = Rope.of(b"\x00") + ser256(k) + seg(idx, 4)
-        data_n = serP(U.ecmul(k)) + seg(idx, 4)
-        Hh = U.hmac512(I.n.cc, data_h)
-        Hn = U.hmac512(I.n.cc, data_n)
-        IL = ite(hardened, Hh.slice(0, 32).be(), Hn.slice(0, 32).be())
-        IRv = ite(hardened, Hh.slice(32, 64).be(), Hn.slice(32, 64).be())
-        ki = (IL + k) % N
+        IL, IR, ki = spec_prv_ckd_terms(k, I.n.cc, idx)
         invalid = lor(IL >= N, ki == 0)
         yield "raises.index_out_of_range", implies(lnot(in_range), out.raised)
         yield "raises.IL_ge_n", implies(land(in_range, IL >= N), out.raised)
@@ -77,8 +69,7 @@ class PrvCkd:
         if out.raised:
             yield "ensures.no_child_appended_on_error", no_append_clause(c, I)
             return
-        yield from child_clauses(c, I, out, repo().bip32.PrvKeyNode,
-                                 seg(ki, 32), seg(IRv, 32))
+        yield from child_clauses(c, I, out, repo().bip32.PrvKeyNode, seg(ki, 32), IR)
 
 
 # ======================================================================================= helpers
@@ -316,17 +307,14 @@ class PubCkd:
         n = I.n
         hardened = idx >= HARD
         neg = idx < 0
-        data = as_rope(n.key) + seg(idx, 4)
-        H = U.hmac512(n.cc, data)
-        IL = H.slice(0, 32).be()
-        IR = H.slice(32, 64)
-        Ki = U.ptadd(U.ecmul(IL), n.pt)
+        IL, IR, Ki = spec_pub_ckd_terms(n.key, n.pt, n.cc, idx)
         invalid = lor(IL >= N, Ki.sym_eq(U.inf()))
         yield "raises.hardened_refused", implies(hardened, out.raised)
         yield "raises.negative_index", implies(neg, out.raised)
         yield "raises.IL_ge_n", implies(land(lnot(hardened), lnot(neg), IL >= N), out.raised)
         yield "raises.point_at_infinity", implies(land(lnot(hardened), lnot(neg), IL < N, IL > 0, Ki.sym_eq(U.inf())), out.raised)
-        # A-PRF0: with the ecdsa back end IL == 0 is also rejected (DESIGN §3 C02)
+        # A-PRF0 / observation O-1: with the ecdsa back end IL == 0 is rejected as well (DESIGN §3 C02)
+        yield "raises.IL_zero_ecdsa_backend", implies(land(lnot(hardened), lnot(neg), IL == 0), out.raised)
         yield "raises.only_if_refused_or_invalid", implies(out.raised, lor(hardened, neg, invalid, IL == 0))
         if out.raised:
             yield "ensures.no_child_appended_on_error", no_append_clause(c, I)
